@@ -146,6 +146,8 @@ def toy_curves(pmax, per_prime=3, cof_per_prime=1):
 
 
 def _ec(tok):
+    if tok not in _EC and tok in CURVES:
+        return CURVES[tok]  # catalogue curves the driver is not asked about (oracles on the real code alone)
     if tok not in _EC and tok.startswith("toy:"):
         p, a, b, gx, gy, n, h = (int(v) for v in tok.split(":")[1:])
         _EC[tok] = Curve(p, a, b, (gx, gy), n, h, weakness_check=False)
@@ -625,6 +627,114 @@ def _o_s2c(w):
     return True, "ok"
 
 
+def x0_toy_curves(pmax, per_prime=2):
+    """[(token, Curve)]: toy curves that HAVE a point of x = 0 (b a non-zero square), any p ≥ 11 (both residues mod 4),
+    prime subgroup order n ≥ 7, odd cofactor; `per_prime` of cofactor 1 and one of cofactor > 1 per prime.  On these
+    r = p reads as the x-coordinate 0 once reduced, so a range check on r that lets p through accepts it."""
+    key = ("x0", pmax, per_prime)
+    if key in _TOYS:
+        return _TOYS[key]
+    out = []
+    for p in range(11, pmax + 1):
+        if not _is_prime(p):
+            continue
+        sq = {}
+        for y in range(p):
+            sq.setdefault(y * y % p, []).append(y)
+        got1 = gotc = 0
+        for a, b in itertools.product(range(p), range(1, p)):
+            if got1 >= per_prime and gotc >= 1:
+                break
+            if b not in sq or (4 * a ** 3 + 27 * b * b) % p == 0:
+                continue
+            pts = [(x, y) for x in range(p) for y in sq.get((x ** 3 + a * x + b) % p, [])]
+            order = len(pts) + 1
+            n = max(d for d in range(1, order + 1) if order % d == 0 and _is_prime(d))
+            h = order // n
+            if n < 7 or n == p or h % 2 == 0 or (h == 1 and got1 >= per_prime) or (h > 1 and gotc >= 1):
+                continue
+            G = next((Q for Q in (_aff_mul(h, Pt, p, a) for Pt in pts) if Q is not None and Q[1] != 0), None)
+            if G is None:
+                continue
+            try:
+                ec = Curve(p, a, b, G, n, h, weakness_check=False)
+            except Exception:  # noqa: BLE001 - btclib refuses this parameter set
+                continue
+            tok = f"toy:{p}:{a}:{b}:{G[0]}:{G[1]}:{n}:{h}"
+            _EC[tok] = ec
+            out.append((tok, ec))
+            if h == 1:
+                got1 += 1
+            else:
+                gotc += 1
+    _TOYS[key] = out
+    return out
+
+
+def _o_r_ge_p(w):  # noqa: C901, PLR0911, PLR0912
+    """r ≥ p never passes — with s and the key chosen so that BIP340's equation WOULD hold for r mod p.
+
+    k•G = K (even y after normalisation), r = x(K) + j·p with j ≥ 1 (r = p itself when x(K) = 0), e the challenge the
+    verifier computes for that r (over the octets of r where they fit in p_size, else over r mod p), s = k + e·q:
+    then s•G − e•Q = K, so a verifier whose range check lets r through reads r mod p = x(K) and accepts.  `k` absent:
+    the bare r = j·p with the listed s.  Every public way of asking must refuse: Sig(…) / assert_valid / serialize raise
+    BTClibValueError, verify_ / verify / batch_verify_ answer False, assert_as_valid_ raises ValueError."""
+    from btclib.exceptions import BTClibRuntimeError, BTClibValueError
+    ec, hf = _ec(w["curve"]), _HF[w["hf"]]
+    msg, q, k, j = bytes.fromhex(w["msg"]), w["q"], w.get("k"), w["j"]
+    with backend(w.get("lib", False)):
+        q1, x_Q = ssa.gen_keys(q, ec)
+        if k is None:
+            r, s, how = j * ec.p, w["s"] % ec.n, "bare multiple of p"
+        else:
+            xk, yk = mult(k, ec=ec)
+            k1 = ec.n - k if yk % 2 else k
+            r = xk + j * ec.p
+            fits = r < 256 ** ec.p_size
+            try:
+                e = ssa.challenge_(msg, x_Q, r if fits else xk, ec, hf)
+            except BTClibRuntimeError as ex:  # zero challenge on a toy curve: nothing to construct
+                return True, f"no construction: {ex}"
+            s = (k1 + e * q1) % ec.n
+            how = f"s = k + e·q for k={k}, e={e}: s•G − e•Q has x = {xk} = r mod p"
+            # the construction is what it claims: the private core (which reads r mod p) accepts it
+            try:
+                ssa._assert_as_valid_(e, (x_Q, _y_even_var(x_Q, ec), 1), r, s, ec, ec._fixed_points)
+            except Exception as ex:  # noqa: BLE001
+                return False, f"harness construction wrong ({type(ex).__name__}: {ex}) for {w}"
+        where = f"{w['curve']}/{w['hf']} r={r} (p={ec.p}, r mod p={r % ec.p}) s={s} x_Q={x_Q} msg={msg.hex()} [{how}]"
+        if ssa.verify_(msg, x_Q, _sig(r, s, ec), hf) is True:
+            return False, f"verify_ answers True for r >= p: {where}"
+        try:
+            ssa.Sig(r, s, ec)
+        except BTClibValueError:
+            pass
+        except Exception as ex:  # noqa: BLE001
+            return False, f"Sig(r >= p) left through {type(ex).__name__}: {where}"
+        else:
+            return False, f"Sig(r >= p) accepted as well formed: {where}"
+        sg = _sig(r, s, ec)
+        for name, f in (("assert_valid", sg.assert_valid), ("serialize", sg.serialize),
+                        ("assert_as_valid_", lambda: ssa.assert_as_valid_(msg, x_Q, sg, hf))):
+            try:
+                f()
+            except ValueError:
+                continue
+            except Exception as ex:  # noqa: BLE001
+                return False, f"{name} refuses r >= p with {type(ex).__name__} instead of a ValueError: {where}"
+            return False, f"{name} accepts r >= p: {where}"
+        for name, f in (("verify_", lambda: ssa.verify_(msg, x_Q, sg, hf)), ("verify", lambda: ssa.verify(msg, x_Q, sg, hf)),
+                        ("batch_verify_ (twice the member)", lambda: ssa.batch_verify_([msg, msg], [x_Q, x_Q], [sg, sg], hf)),
+                        ("batch_verify_ (one member)", lambda: ssa.batch_verify_([msg], [x_Q], [sg], hf))):
+            try:
+                b = f()
+            except Exception as ex:  # noqa: BLE001
+                return False, f"{name} raised {type(ex).__name__} for r >= p: {where}"
+            if b is not False:
+                return False, f"{name} answers {b} for r >= p: {where}"
+    return True, "refused everywhere"
+
+
 _VECTORS = None
 
 
@@ -666,6 +776,7 @@ ORACLES = {
     "sign.verifies": _o_sign_verifies,
     "backend.agree": _o_backend_agree,
     "verify.total": _o_verify_total,
+    "verify.r_ge_p": _o_r_ge_p,
     "batch.all_valid": _o_batch_all_valid,
     "batch.one_tampered": _o_batch_one_tampered,
     "batch.at_most_one_coeff": _o_batch_at_most_one_coeff,
@@ -1051,6 +1162,37 @@ def _run(ctx, rng, thorough):  # noqa: C901, PLR0912, PLR0915
         xb = rng.choice([(x % (1 << 256)).to_bytes(32, "big"), _rb(rng, 32), b"\x02" + _rb(rng, 32), b"\xff" * 32, bytes(32)])
         ctx.check("verify.total", {"curve": K1, "hf": "sha256", "msg": msg.hex(), "xbytes": xb.hex(), "sigbytes": sb.hex()},
                   nontrivial=len(sb) == 64)
+
+
+    # ---- r >= p is never a signature: every catalogue curve (both arms where the bindings serve), and toy curves that have
+    # a point of x = 0 enumerated over every nonce point K and every r = x(K) + j·p one octet more than p_size can carry
+    for name, ec in CURVES.items():
+        for lib in ((False, True) if ec is secp256k1 else (False,)):
+            for hf in (rng.choice(["sha256", "sha256", "sha1", "sha512"]),):
+                q, msg = rng.randrange(1, ec.n), _rb(rng, rng.choice([0, 32, 33]))
+                for j in (1, 2):
+                    ctx.check("verify.r_ge_p", {"curve": name, "hf": hf, "msg": msg.hex(), "q": q, "k": rng.randrange(1, ec.n),
+                                                "j": j, "lib": lib})
+                for sv in (0, 1, rng.randrange(ec.n)):
+                    ctx.check("verify.r_ge_p", {"curve": name, "hf": hf, "msg": msg.hex(), "q": q, "j": 1, "s": sv, "lib": lib})
+        ctx.count("verify.r_ge_p#curves", "catalogue, has a point of x = 0" if _curve._is_x_coordinate_var(0, ec)
+                  else "catalogue, no point of x = 0")
+    with backend(False):
+        x0 = x0_toy_curves(43 if thorough else 23, per_prime=3 if thorough else 2)
+        for tok, ec in x0:
+            ctx.count("verify.r_ge_p#curves", f"toy with a point of x = 0, p % 4 = {ec.p % 4}, cofactor {'1' if ec.cofactor == 1 else '> 1'}")
+            hits = 0
+            for q, msg in [(rng.randrange(1, ec.n), _rb(rng, rng.choice([0, 1, 32]))) for _ in range(ctx.n(2, 6))]:
+                hf = rng.choice(["sha256", "sha1"])
+                for k in range(1, ec.n):
+                    xk = mult(k, ec=ec)[0]
+                    hits += xk == 0
+                    for j in range(1, (256 + ec.p) // ec.p + 1):
+                        ctx.check("verify.r_ge_p", {"curve": tok, "hf": hf, "msg": msg.hex(), "q": q, "k": k, "j": j},
+                                  nontrivial=j == 1)
+                for sv in range(ec.n):
+                    ctx.check("verify.r_ge_p", {"curve": tok, "hf": hf, "msg": msg.hex(), "q": q, "j": 1, "s": sv})
+            ctx.count("verify.r_ge_p#curves", "toy: r = p exactly with the equation holding mod p", hits)
 
     # ---- other hash functions / other catalogued curves (Python arm by construction)
     with backend(True):  # serving, yet not served: hf is not sha256 / the curve is not secp256k1
